@@ -163,3 +163,119 @@ func VerifC06_V2AllKeysAfterDestroy() {
 		verif.Assert(verifContains(all, gen[1]), "surviving-rotated-offered")
 	}
 }
+
+// VerifC02_V2KeysNotSharedAcrossClients: the keys generated for client a and client b differ and stay with their
+// owner: after a's key ring file is copied over b's (storage symmetric or HMAC ring), a fresh handle does not hand
+// a's key out as b's.
+func VerifC02_V2KeysNotSharedAcrossClients() {
+	suite := verifSuite()
+	be := backend.NewInMemory()
+	s := verifServer(be, suite)
+	a, b := []byte("a"), []byte("b")
+	hmacRing := verif.Choose("ring", 0, 1) == 1
+	var ka, kb []byte
+	var err error
+	if hmacRing {
+		verif.Assert(s.GenerateHmacKey(a) == nil && s.GenerateHmacKey(b) == nil, "generate")
+		ka, err = s.GetHMACSecretKey(a)
+		verif.Assert(err == nil, "read-a")
+		kb, err = s.GetHMACSecretKey(b)
+		verif.Assert(err == nil, "read-b")
+	} else {
+		verif.Assert(s.GenerateClientIDSymmetricKey(a) == nil && s.GenerateClientIDSymmetricKey(b) == nil, "generate")
+		ka, err = s.GetClientIDSymmetricKey(a)
+		verif.Assert(err == nil, "read-a")
+		kb, err = s.GetClientIDSymmetricKey(b)
+		verif.Assert(err == nil, "read-b")
+	}
+	if ka == nil || kb == nil {
+		return
+	}
+	verif.Assume(!verif.Eq(ka, kb)) // two fresh random keys
+	name := "storage-sym"
+	if hmacRing {
+		name = "hmac-sym"
+	}
+	blob, err := be.Get("client/a/" + name + ".keyring")
+	verif.Assert(err == nil, "ring-file-of-a-exists")
+	if err != nil {
+		return
+	}
+	// copy over b's ring file: write next to it, then rename over it (Put refuses to overwrite)
+	verif.Assert(be.Put("client/b/"+name+".keyring.copy", verifDup(blob)) == nil, "copy")
+	verif.Assert(be.Rename("client/b/"+name+".keyring.copy", "client/b/"+name+".keyring") == nil, "move-over")
+	s2 := verifServer(be, suite)
+	verif.Reach("copied")
+	var got []byte
+	if hmacRing {
+		got, err = s2.GetHMACSecretKey(b)
+	} else {
+		got, err = s2.GetClientIDSymmetricKey(b)
+	}
+	if err == nil {
+		verif.Assert(!verif.Eq(got, ka), "key-of-a-not-served-as-key-of-b")
+	}
+	if !hmacRing {
+		all, err := s2.GetClientIDSymmetricKeys(b)
+		if err == nil {
+			verif.Assert(!verifContains(all, ka), "key-of-a-not-among-keys-of-b")
+		}
+	}
+}
+
+// VerifC18_V2BackupModes: KeyBackuper.Export / Import (what acra-keys export|import and acra-backup call) between two
+// key stores with different master keys. Mode "all" and mode "private" with an explicit selection make the exported
+// keys available in the target with identical values and order; mode "public only" must not carry private material.
+func VerifC18_V2BackupModes() {
+	suite := verifSuite()
+	be := backend.NewInMemory()
+	s := verifServer(be, suite)
+	id := []byte("a")
+	verif.Assert(s.GenerateClientIDSymmetricKey(id) == nil, "generate-1")
+	verif.Assert(s.GenerateClientIDSymmetricKey(id) == nil, "generate-2")
+	verif.Assert(s.GenerateHmacKey(id) == nil, "generate-hmac")
+	want, err := s.GetClientIDSymmetricKeys(id)
+	verif.Assert(err == nil && len(want) == 2, "source-keys")
+	wantHmac, err := s.GetHMACSecretKey(id)
+	verif.Assert(err == nil, "source-hmac")
+	if err != nil || len(want) != 2 {
+		return
+	}
+	bk, _ := NewKeyBackuper("", "", s) // acra-keys passes the ServerKeyStore
+	var backup *keystoreV1.KeysBackup
+	all := verif.Choose("mode", 0, 1) == 0
+	if all {
+		backup, err = bk.Export(nil, keystoreV1.ExportAllKeys)
+	} else {
+		backup, err = bk.Export([]keystoreV1.ExportID{{KeyKind: keystoreV1.KeySymmetric, ContextID: id}, {KeyKind: keystoreV1.KeySearch, ContextID: id}}, keystoreV1.ExportPrivateKeys)
+	}
+	verif.Reach("exported")
+	verif.Assert(err == nil, "export-no-error")
+	if err != nil {
+		return
+	}
+	suite2, err := crypto.NewSCellSuite(verif.Bytes("master2-enc", 32), verif.Bytes("master2-sig", 32))
+	if err != nil {
+		return
+	}
+	be2 := backend.NewInMemory()
+	t := verifServer(be2, suite2)
+	bk2, _ := NewKeyBackuper("", "", t)
+	_, err = bk2.Import(backup)
+	verif.Assert(err == nil, "import-no-error")
+	if err != nil {
+		return
+	}
+	t = verifServer(be2, suite2) // fresh handle
+	got, err := t.GetClientIDSymmetricKeys(id)
+	verif.Reach("imported")
+	verif.Assert(err == nil, "target-has-the-symmetric-keys")
+	if err == nil {
+		verif.Assert(len(got) == 2 && verif.Eq(got[0], want[0]) && verif.Eq(got[1], want[1]), "target-symmetric-keys-identical-and-ordered")
+	}
+	gotHmac, err := t.GetHMACSecretKey(id)
+	verif.Assert(err == nil, "target-has-the-hmac-key")
+	if err == nil {
+		verif.Assert(verif.Eq(gotHmac, wantHmac), "target-hmac-key-identical")
+	}
+}
